@@ -20,7 +20,7 @@ RULE = (
 )
 ASSUMPTIONS = ["snapshots compare object identities, not reprs", "graphviz 'dot' is available for render cases (else they are skipped and counted)"]
 
-OPS = ["run_ok", "run_fail", "run_stalefail", "run_cycle", "dry", "render", "render_dry", "concurrent", "concurrent_reg", "copies", "run_opts"]
+OPS = ["run_ok", "run_fail", "run_stalefail", "run_cycle", "dry", "render", "render_dry", "concurrent", "concurrent_reg", "copies", "run_opts", "foreign_entry", "run_dry_plan"]
 
 
 def gen_cases(tier, seed):
@@ -43,7 +43,7 @@ def run_case(desc):
     bad = None
     registry = None
     S = None
-    use_reg = op in ("run_stalefail", "dry", "render_dry", "concurrent_reg") or (op in ("run_ok", "run_fail", "render", "copies", "run_cycle", "run_opts") and rng.random() < 0.5)
+    use_reg = op in ("run_stalefail", "dry", "render_dry", "concurrent_reg", "foreign_entry") or (op in ("run_ok", "run_fail", "render", "copies", "run_cycle", "run_opts", "run_dry_plan") and rng.random() < 0.5)
     if use_reg:
         rp = regmodel.gen_regplan(rng, desc["n"])
         S = regmodel.Session(rp, desc["seed"])
@@ -138,6 +138,46 @@ def run_case(desc):
                 exc = e
             detail["raised"] = repr(exc)[:80]
             bad = compare("run on a cyclic plan")
+        elif op == "foreign_entry":
+            # one registry shared by a plan and an extended copy of it: it holds an entry whose node is not in the plan being run.
+            # Whatever run makes of that (today: an error), the caller's registry keeps all its entries.
+            from vmon import vstore
+
+            p2 = plan.copy()
+            z = p2.call(len, [1, 2])
+            registry.add(z, vstore.VStore("foreign", S.clock, H))
+            before_r = snapshot.registry_snapshot(registry)
+            for dry in (False, True):
+                exc = None
+                try:
+                    uberjob.run(plan, **kw, dry_run=dry)
+                except BaseException as e:
+                    exc = e
+                detail[f"raised_dry={dry}"] = repr(exc)[:80]
+                bad = compare(f"run(dry_run={dry}) with a registry that also holds a node of another plan")
+                if bad:
+                    break
+        elif op == "run_dry_plan":
+            # the physical plan returned by a dry run is a Plan like any other: running it must not modify it either
+            pp, out_node = uberjob.run(plan, **kw, dry_run=True)
+            snap_pp = snapshot.plan_snapshot(pp)
+            outcomes = []
+            for attempt in range(2):
+                H.reset() if hasattr(H, "reset") else None
+                try:
+                    r_ = uberjob.run(pp, output=out_node, max_workers=desc["W"], scheduler=desc["sched"], progress=None)
+                    outcomes.append(("ok", irmod.canon(r_)[:200]))
+                except BaseException as e:
+                    outcomes.append(("exc", type(e).__name__))
+                counters["snapshots_compared"] += 1
+                d = snapshot.diff(snap_pp, snapshot.plan_snapshot(pp))
+                if d:
+                    bad = f"running the physical plan returned by a dry run modified that plan (run #{attempt + 1}): {d}"
+                    break
+            if bad is None and outcomes[0] != outcomes[1]:
+                bad = f"running the dry run's physical plan twice gave different outcomes: {outcomes}"
+            if bad is None:
+                bad = compare("dry run + runs of its physical plan")
         elif op == "dry":
             res = uberjob.run(plan, **kw, dry_run=True)
             bad = compare("dry run")
@@ -150,8 +190,10 @@ def run_case(desc):
                 counters["render_skipped_no_dot"] = 1
             else:
                 target = plan
+                snap_t = None
                 if op == "render_dry":
                     target = uberjob.run(plan, **kw, dry_run=True)
+                    snap_t = snapshot.plan_snapshot(target[0])
                 level = rng.choice([None, 0, 1, 2, 3, 4])
                 pred = rng.choice([None, lambda u, d: type(u).__name__ == "Call", lambda u, d: bool(u.scope) or True])
                 fmt = rng.choice(["svg", "dot", "svg"])
@@ -164,6 +206,11 @@ def run_case(desc):
                     detail["render_raised"] = repr(e)[:120]
                 counters["renders"] = 1
                 bad = compare(f"render(level={level}, format={fmt}, predicate={'yes' if pred else 'no'})")
+                if bad is None and snap_t is not None:
+                    counters["snapshots_compared"] += 1
+                    d = snapshot.diff(snap_t, snapshot.plan_snapshot(target[0]))
+                    if d:
+                        bad = f"render(level={level}, predicate={'yes' if pred else 'no'}) modified the physical plan returned by the dry run: {d}"
                 if bad is None and rexc is not None:
                     return {"status": "inconclusive", "detail": f"render raised {rexc!r} on a valid plan"}
                 if bad is None and not out:
